@@ -1,148 +1,860 @@
-(* (7, partial) the model of Box2.lineIntersect / tAppend / Snap: every piece it returns is a
-   sub-segment of the line, inside the box, oriented like the line - under the hypothesis that
-   Snap does not move any candidate point (each candidate is either exactly on a box side or
-   farther than the tolerance from it). *)
-From Coq Require Import Reals Lra Lia List Bool ZArith Psatz.
-From Sdfx Require Import Num.Ops Num.RInst Geo.Vec Geo.Box Geo.BoxR Sdf.Poly Sdf.PolyR.
+(* (7) Box2.lineClip / Box2.lineIntersect / qtBuild over the reals, FULL statement: for every box and
+   every segment the pieces returned for the four sub-quadrants chain up to the segment (none lost,
+   none doubled, joints on the segment), each piece is owned by its quadrant, and therefore qtBuild
+   yields a well_clipped family for EVERY list of segments - no tolerance, no separation hypothesis.
+   math.Nextafter is the identity at the real instance (the reals have no gaps; the interpolated point
+   lies in the range it is clamped to). *)
+From Coq Require Import Reals Lra Lia List Bool ZArith Psatz Permutation.
+From Sdfx Require Import Num.Ops Num.RInst Geo.Vec Geo.Box Geo.BoxR Sdf.Poly Sdf.PolyR Sdf.PolyTreeR.
 Import ListNotations.
 Open Scope R_scope.
 
-Definition in01 (t : R) : Prop := 0 <= t <= 1.
+Definition idn (x _ : R) : R := x.
+Notation clipR := (@line_clip ROps idn).
+Notation lineR := (@line_intersect ROps idn).
 
-Lemma t_append_in01 (ts : list R) (t : R) : Forall in01 ts -> Forall in01 (@t_append ROps ts t).
-Proof.
-  intros H. unfold t_append. unops.
-  destruct (Rltb t 0) eqn:C1; [exact H | apply Rltb_false in C1].
-  destruct (Rltb 1 t) eqn:C2; [exact H | apply Rltb_false in C2]. cbn [orb].
-  destruct (existsb _ ts); [exact H|]. apply Forall_app. split; [exact H|]. constructor; [split; lra | constructor].
-Qed.
+Definition o2l {A} (o : option A) : list A := match o with Some x => [x] | None => [] end.
 
-Lemma clip_ts_in01 (a : Box2 ROps) (l : SegR) : Forall in01 (clip_ts a l).
-Proof.
-  unfold clip_ts. unops.
-  assert (H0 : Forall in01 [0; 1]) by (constructor; [split; lra | constructor; [split; lra | constructor]]).
-  destruct (negb (Reqb (vy (v2sub (snd l) (fst l))) 0)); destruct (negb (Reqb (vx (v2sub (snd l) (fst l))) 0));
-    repeat apply t_append_in01; exact H0.
-Qed.
-
-Lemma clip_pt_pt (l : SegR) (t : R) : clip_pt l t = pt (fst l) (snd l) t.
-Proof.
-  destruct l as [[ax ay] [bx by_]]. unfold clip_pt, pt, v2add, v2muls, v2sub; cbn [fst snd vx vy]. unops.
-  destruct (Reqb t 0) eqn:C0; [apply Reqb_true in C0; subst t; f_equal; ring|].
-  destruct (Reqb t 1) eqn:C1; [apply Reqb_true in C1; subst t; f_equal; ring|].
-  f_equal; ring.
-Qed.
-
-(* Snap leaves every candidate point where it is *)
-Definition snap_inert (a : Box2 ROps) (l : SegR) : Prop :=
-  Forall (fun t => box2_snap a (clip_pt l t) tolerance = clip_pt l t) (clip_ts a l).
-
-Lemma dot_pt (A B : V) (t0 t1 : R) :
-  v2dot (v2sub B A) (v2sub (pt A B t1) (pt A B t0))
-  = (t1 - t0) * ((vx B - vx A) * (vx B - vx A) + (vy B - vy A) * (vy B - vy A)).
-Proof. destruct A as [ax ay], B as [bx by_]. unfold v2dot, v2sub, pt; cbn [vx vy]. unops. ring. Qed.
-
-Lemma pt_degenerate (A B : V) (t t' : R) :
-  (vx B - vx A) * (vx B - vx A) + (vy B - vy A) * (vy B - vy A) <= 0 -> pt A B t = pt A B t'.
-Proof.
-  destruct A as [ax ay], B as [bx by_]; cbn [vx vy]. intros H.
-  pose proof (sq_nn (bx - ax)). pose proof (sq_nn (by_ - ay)).
-  assert (bx - ax = 0) by nra. assert (by_ - ay = 0) by nra.
-  unfold pt; cbn [vx vy]. rewrite H2, H3. f_equal; ring.
-Qed.
-
-Theorem clip_sound_partial (a : Box2 ROps) (l : SegR) (P Q : V) :
-  snap_inert a l -> line_intersect a l = Some (P, Q) ->
-  exists s t, in01 s /\ in01 t /\ s <= t /\ P = pt (fst l) (snd l) s /\ Q = pt (fst l) (snd l) t /\
-              box2_contains a P = true /\ box2_contains a Q = true.
-Proof.
-  intros Hin. unfold line_intersect.
-  destruct (_ && _); [discriminate|]. destruct (_ && _); [discriminate|].
-  destruct (box2_contains a (fst l) && box2_contains a (snd l)) eqn:Cc.
-  - intros E. injection E as El. subst l. cbn [fst snd] in *.
-    apply andb_true_iff in Cc. destruct Cc as [C1 C2].
-    exists 0, 1. rewrite pt_0, pt_1. unfold in01. repeat split; try lra; assumption.
-  - set (ps := flat_map _ (clip_ts a l)).
-    assert (Hps : forall p, In p ps -> exists t, in01 t /\ p = pt (fst l) (snd l) t /\ box2_contains a p = true).
-    { intros p Hp. unfold ps in Hp. apply in_flat_map in Hp. destruct Hp as (t & Ht & Hp).
-      pose proof (clip_ts_in01 a l) as H01. unfold snap_inert in Hin. rewrite Forall_forall in H01, Hin.
-      rewrite (Hin t Ht) in Hp. destruct (box2_contains a (clip_pt l t)) eqn:Ct; [|destruct Hp].
-      destruct Hp as [<-|[]]. exists t. split; [apply H01; exact Ht|]. split; [apply clip_pt_pt | exact Ct]. }
-    destruct ps as [|p0 [|p1 [|p2 ps']]]; try discriminate.
-    destruct (Hps p0 (or_introl eq_refl)) as (t0 & H0 & E0 & C0).
-    destruct (Hps p1 (or_intror (or_introl eq_refl))) as (t1 & H1 & E1 & C1).
-    unops. rewrite E0, E1, dot_pt.
-    set (vv := (vx (snd l) - vx (fst l)) * (vx (snd l) - vx (fst l)) + (vy (snd l) - vy (fst l)) * (vy (snd l) - vy (fst l))).
-    assert (Hvv : 0 <= vv) by (unfold vv; pose proof (sq_nn (vx (snd l) - vx (fst l))); pose proof (sq_nn (vy (snd l) - vy (fst l))); lra).
-    destruct (Rltb 0 ((t1 - t0) * vv)) eqn:Co; [apply Rltb_true in Co | apply Rltb_false in Co]; intros E; inversion E; subst P Q.
-    + exists t0, t1. repeat split; try apply H0; try apply H1; try reflexivity; try (rewrite <- E0; exact C0); try (rewrite <- E1; exact C1).
-      clearbody vv. nra.
-    + destruct (Rle_dec vv 0) as [Hz|Hz].
-      * exists t0, t0. repeat split; try apply H0; try lra; try (rewrite <- E0; exact C0); try (rewrite <- E1; exact C1).
-        apply pt_degenerate. exact Hz.
-      * exists t1, t0. repeat split; try apply H0; try apply H1; try reflexivity; try (rewrite <- E0; exact C0); try (rewrite <- E1; exact C1).
-        clearbody vv. nra.
-Qed.
-
-(* ------------------------------------------------------------ the hypothesis is satisfiable:
-   the horizontal segment (-1,1/2)-(2,1/2) against the unit box; candidates 0, 1, 1/3, 2/3 *)
-Definition exc_box : Box2 ROps := mkBox2 (mkV2 0 0) (mkV2 1 1).
-Definition exc_seg : Seg ROps := (mkV2 (-1) (1 / 2), mkV2 2 (1 / 2)).
-
-Lemma Reqb_neq x y : x <> y -> Reqb x y = false.
-Proof. intros H. apply Reqb_false. exact H. Qed.
+Lemma Reqb_t x y : x = y -> Reqb x y = true. Proof. intros; apply Reqb_true; assumption. Qed.
+Lemma Reqb_f x y : x <> y -> Reqb x y = false. Proof. intros; apply Reqb_false; assumption. Qed.
 Lemma Rltb_t x y : x < y -> Rltb x y = true. Proof. intros; apply Rltb_true; assumption. Qed.
 Lemma Rltb_f x y : y <= x -> Rltb x y = false. Proof. intros; apply Rltb_false; assumption. Qed.
 Lemma Rleb_t x y : x <= y -> Rleb x y = true. Proof. intros; apply Rleb_true; assumption. Qed.
 Lemma Rleb_f x y : y < x -> Rleb x y = false. Proof. intros; apply Rleb_false; assumption. Qed.
 
-Lemma tol_val : @tolerance ROps = / 1000000000.
-Proof. unfold tolerance, cst. unops. cbn. lra. Qed.
+Lemma Rmin_lt a b : a <= b -> Rmin a b = a. Proof. intros; apply Rmin_left; assumption. Qed.
+Lemma Rmin_gt a b : b <= a -> Rmin a b = b. Proof. intros; apply Rmin_right; assumption. Qed.
+Lemma Rmax_lt a b : a <= b -> Rmax a b = b. Proof. intros; apply Rmax_right; assumption. Qed.
+Lemma Rmax_gt a b : b <= a -> Rmax a b = a. Proof. intros; apply Rmax_left; assumption. Qed.
 
-Lemma eqf_false (a b : R) : / 1000000000 <= Rabs (a - b) -> @equal_float64 ROps a b (@tolerance ROps) = false.
+(* ------------------------------------------------------------ lineClip, one coordinate *)
+(* the clamp of the interpolated ordinate is the identity: y lies between the end ordinates *)
+Lemma clamp_between (ay by_ s : R) : 0 <= s <= 1 ->
+  Rmin (Rmax (ay + (by_ - ay) * s) (Rmin ay by_)) (idn (Rmax ay by_) (Rmin ay by_)) = ay + (by_ - ay) * s.
 Proof.
-  intros H. unfold equal_float64. unops. rewrite tol_val.
-  assert (a <> b). { intros ->. rewrite Rminus_diag_eq in H by reflexivity. rewrite Rabs_R0 in H. lra. }
-  rewrite (Reqb_neq _ _ H0). rewrite (Rltb_f _ _ H). reflexivity.
-Qed.
-Lemma eqf_refl (a : R) : @equal_float64 ROps a a (@tolerance ROps) = true.
-Proof. unfold equal_float64. unops. assert (Reqb a a = true) by (apply Reqb_true; reflexivity). rewrite H. reflexivity. Qed.
-
-Lemma exc_ts : clip_ts exc_box exc_seg = [0; 1; 1 / 3; 2 / 3].
-Proof.
-  unfold clip_ts, exc_box, exc_seg, v2sub; cbn [fst snd vx vy b2min b2max]. unops.
-  replace (1 / 2 - 1 / 2) with 0 by lra. replace (2 - -1) with 3 by lra.
-  rewrite (proj2 (Reqb_true 0 0) eq_refl). cbn [negb].
-  rewrite (Reqb_neq 3 0) by lra. cbn [negb].
-  replace ((0 - -1) * (1 / 3)) with (1 / 3) by lra. replace ((1 - -1) * (1 / 3)) with (2 / 3) by lra.
-  unfold t_append. unops.
-  rewrite (Rltb_f (1 / 3) 0), (Rltb_f 1 (1 / 3)) by lra. cbn [orb existsb].
-  rewrite (eqf_false 0 (1 / 3)), (eqf_false 1 (1 / 3)); cbn [orb app].
-  2,3: unfold Rabs; destruct (Rcase_abs _); lra.
-  rewrite (Rltb_f (2 / 3) 0), (Rltb_f 1 (2 / 3)) by lra. cbn [orb existsb].
-  rewrite (eqf_false 0 (2 / 3)), (eqf_false 1 (2 / 3)), (eqf_false (1 / 3) (2 / 3)); cbn [orb app].
-  2,3,4: unfold Rabs; destruct (Rcase_abs _); lra.
-  reflexivity.
+  intros Hs. unfold idn. destruct (Rle_dec ay by_) as [H|H].
+  - rewrite (Rmin_lt ay by_), (Rmax_lt ay by_) by lra.
+    assert (ay <= ay + (by_ - ay) * s <= by_) by nra.
+    rewrite Rmax_gt by lra. rewrite Rmin_lt by lra. reflexivity.
+  - rewrite (Rmin_gt ay by_), (Rmax_gt ay by_) by lra.
+    assert (by_ <= ay + (by_ - ay) * s <= ay) by nra.
+    rewrite Rmax_gt by lra. rewrite Rmin_lt by lra. reflexivity.
 Qed.
 
-Lemma snapf_far (a b : R) : / 1000000000 <= Rabs (a - b) -> @snap_float64 ROps a b (@tolerance ROps) = a.
-Proof. intros H. unfold snap_float64. rewrite (eqf_false a b H). reflexivity. Qed.
-Lemma snapf_same (a : R) : @snap_float64 ROps a a (@tolerance ROps) = a.
-Proof. unfold snap_float64. rewrite eqf_refl. reflexivity. Qed.
+(* a vertical line: kept whole iff mn <= x < mx *)
+Lemma clip_vertical (l : SegR) (mn mx : R) : vx (fst l) = vx (snd l) ->
+  clipR l mn mx = if Rltb (vx (fst l)) mn || Rleb mx (vx (fst l)) then None else Some l.
+Proof. intros H. unfold line_clip. unops. rewrite (Reqb_t _ _ H). reflexivity. Qed.
 
-Lemma snap_pair_id (x lo hi : R) :
-  (x = lo \/ / 1000000000 <= Rabs (x - lo)) -> (x = hi \/ / 1000000000 <= Rabs (x - hi)) ->
-  @snap_float64 ROps (@snap_float64 ROps x lo (@tolerance ROps)) hi (@tolerance ROps) = x.
+(* both end points in range (and not a vertical line along mx): the line itself *)
+Lemma clip_inside (l : SegR) (mn mx : R) :
+  mn <= vx (fst l) <= mx -> mn <= vx (snd l) <= mx -> ~ (vx (fst l) = vx (snd l) /\ vx (fst l) = mx) ->
+  clipR l mn mx = Some l.
 Proof.
-  intros [->|H1]; [rewrite snapf_same | rewrite (snapf_far _ _ H1)];
-  (intros [->|H2]; [rewrite snapf_same | rewrite (snapf_far _ _ H2)]); reflexivity.
+  destruct l as [[ax ay] [bx by_]]; cbn [fst snd vx vy]. intros HA HB Hn.
+  unfold line_clip; cbn [fst snd vx vy]. unops.
+  destruct (Reqb ax bx) eqn:E; [apply Reqb_true in E | apply Reqb_false in E].
+  - rewrite Rltb_f by lra. rewrite Rleb_f; [reflexivity|]. destruct (Rlt_dec ax mx); [assumption|]. exfalso. apply Hn. split; lra.
+  - assert (mn < Rmax ax bx) by (unfold Rmax; destruct (Rle_dec ax bx); lra).
+    assert (Rmin ax bx < mx) by (unfold Rmin; destruct (Rle_dec ax bx); lra).
+    rewrite Rleb_f by assumption. rewrite Rleb_f by assumption. cbn [orb].
+    rewrite (Rmax_gt ax mn), (Rmin_lt ax mx), (Rmax_gt bx mn), (Rmin_lt bx mx) by lra.
+    rewrite (Reqb_t ax ax), (Reqb_t bx bx) by reflexivity. reflexivity.
 Qed.
-Ltac far := unfold Rabs; match goal with |- context [Rcase_abs ?x] => destruct (Rcase_abs x) end; lra.
 
-Lemma exc_snap_inert : snap_inert exc_box exc_seg.
+(* both end points at or beyond one end of the range (not a vertical line in range): nothing *)
+Lemma clip_below (l : SegR) (mn mx : R) :
+  vx (fst l) <= mn -> vx (snd l) <= mn -> ~ (vx (fst l) = vx (snd l) /\ vx (fst l) = mn) -> clipR l mn mx = None.
 Proof.
-  unfold snap_inert. rewrite exc_ts.
-  repeat (apply Forall_cons; [|]); try apply Forall_nil;
-  rewrite clip_pt_pt; unfold exc_seg, exc_box, pt, box2_snap; cbn [fst snd vx vy b2min b2max]; f_equal;
-  apply snap_pair_id; first [left; lra | right; far].
+  destruct l as [[ax ay] [bx by_]]; cbn [fst snd vx vy]. intros HA HB Hn.
+  unfold line_clip; cbn [fst snd vx vy]. unops.
+  destruct (Reqb ax bx) eqn:E; [apply Reqb_true in E | apply Reqb_false in E].
+  - rewrite Rltb_t; [reflexivity|]. destruct (Rlt_dec ax mn); [assumption|]. exfalso. apply Hn. split; lra.
+  - rewrite (Rleb_t (Rmax ax bx) mn); [reflexivity|]. unfold Rmax; destruct (Rle_dec ax bx); lra.
 Qed.
+Lemma clip_above (l : SegR) (mn mx : R) :
+  mx <= vx (fst l) -> mx <= vx (snd l) -> clipR l mn mx = None.
+Proof.
+  destruct l as [[ax ay] [bx by_]]; cbn [fst snd vx vy]. intros HA HB.
+  unfold line_clip; cbn [fst snd vx vy]. unops.
+  destruct (Reqb ax bx) eqn:E; [apply Reqb_true in E | apply Reqb_false in E].
+  - rewrite (Rleb_t mx ax) by lra. rewrite orb_true_r. reflexivity.
+  - rewrite (Rleb_t mx (Rmin ax bx)); [rewrite orb_true_r; reflexivity|]. unfold Rmin; destruct (Rle_dec ax bx); lra.
+Qed.
+
+(* the point of the line at abscissa c *)
+Definition cutpt (l : SegR) (c : R) : V :=
+  pt (fst l) (snd l) ((c - vx (fst l)) / (vx (snd l) - vx (fst l))).
+
+Lemma cutpt_between (l : SegR) (c : R) :
+  (vx (fst l) < c < vx (snd l) \/ vx (snd l) < c < vx (fst l)) ->
+  between (fst l) (snd l) (cutpt l c) ((c - vx (fst l)) / (vx (snd l) - vx (fst l))) /\ vx (cutpt l c) = c.
+Proof.
+  destruct l as [[ax ay] [bx by_]]; cbn [fst snd vx vy]. intros H.
+  unfold cutpt, between, pt; cbn [fst snd vx vy].
+  assert (Hd : bx - ax <> 0) by lra.
+  split; [split; [|split; reflexivity]|].
+  - split.
+    + destruct H; [apply Rdiv_lt_0_compat; lra|].
+      replace ((c - ax) / (bx - ax)) with ((ax - c) / (ax - bx)) by (field; lra). apply Rdiv_lt_0_compat; lra.
+    + destruct H.
+      * apply Rmult_lt_reg_r with (bx - ax); [lra|]. replace ((c - ax) / (bx - ax) * (bx - ax)) with (c - ax) by (field; lra). lra.
+      * replace ((c - ax) / (bx - ax)) with ((ax - c) / (ax - bx)) by (field; lra).
+        apply Rmult_lt_reg_r with (ax - bx); [lra|]. replace ((ax - c) / (ax - bx) * (ax - bx)) with (ax - c) by (field; lra). lra.
+  - cbn [vx]. unops. field. lra.
+Qed.
+
+(* the line crosses the upper end mx of the range going up: the part up to the crossing point *)
+Lemma clip_cut_hi_fwd (l : SegR) (mn mx : R) :
+  mn <= vx (fst l) < mx -> mx < vx (snd l) -> clipR l mn mx = Some (fst l, cutpt l mx).
+Proof.
+  destruct l as [[ax ay] [bx by_]]; cbn [fst snd vx vy]. intros HA HB.
+  unfold line_clip, cutpt, pt; cbn [fst snd vx vy]. unops.
+  rewrite (Reqb_f ax bx) by lra.
+  rewrite (Rmax_lt ax bx), (Rmin_lt ax bx) by lra. rewrite (Rleb_f bx mn), (Rleb_f mx ax) by lra. cbn [orb].
+  rewrite (Rmax_gt ax mn), (Rmin_lt ax mx), (Rmax_gt bx mn), (Rmin_gt bx mx) by lra.
+  rewrite (Reqb_t ax ax) by reflexivity. rewrite (Reqb_f mx bx) by lra. cbn [negb].
+  assert (Hs : 0 <= (mx - ax) / (bx - ax) <= 1).
+  { split; [apply Rlt_le; apply Rdiv_lt_0_compat; lra|].
+    apply Rmult_le_reg_r with (bx - ax); [lra|]. replace ((mx - ax) / (bx - ax) * (bx - ax)) with (mx - ax) by (field; lra). lra. }
+  rewrite (clamp_between ay by_ _ Hs). do 3 f_equal; [field; lra | ring].
+Qed.
+(* ... going down: the part from the crossing point on *)
+Lemma clip_cut_hi_bwd (l : SegR) (mn mx : R) :
+  mx < vx (fst l) -> mn <= vx (snd l) < mx -> clipR l mn mx = Some (cutpt l mx, snd l).
+Proof.
+  destruct l as [[ax ay] [bx by_]]; cbn [fst snd vx vy]. intros HA HB.
+  unfold line_clip, cutpt, pt; cbn [fst snd vx vy]. unops.
+  rewrite (Reqb_f ax bx) by lra.
+  rewrite (Rmax_gt ax bx), (Rmin_gt ax bx) by lra. rewrite (Rleb_f ax mn), (Rleb_f mx bx) by lra. cbn [orb].
+  rewrite (Rmax_gt ax mn), (Rmin_gt ax mx), (Rmax_gt bx mn), (Rmin_lt bx mx) by lra.
+  rewrite (Reqb_t bx bx) by reflexivity. rewrite (Reqb_f mx ax) by lra. cbn [negb].
+  assert (Hs : 0 <= (mx - ax) / (bx - ax) <= 1).
+  { replace ((mx - ax) / (bx - ax)) with ((ax - mx) / (ax - bx)) by (field; lra).
+    split; [apply Rlt_le; apply Rdiv_lt_0_compat; lra|].
+    apply Rmult_le_reg_r with (ax - bx); [lra|]. replace ((ax - mx) / (ax - bx) * (ax - bx)) with (ax - mx) by (field; lra). lra. }
+  rewrite (clamp_between ay by_ _ Hs). do 3 f_equal; [field; lra | ring].
+Qed.
+(* the line crosses the lower end mn of the range going up: the part from the crossing point on *)
+Lemma clip_cut_lo_fwd (l : SegR) (mn mx : R) :
+  vx (fst l) < mn -> mn < vx (snd l) <= mx -> clipR l mn mx = Some (cutpt l mn, snd l).
+Proof.
+  destruct l as [[ax ay] [bx by_]]; cbn [fst snd vx vy]. intros HA HB.
+  unfold line_clip, cutpt, pt; cbn [fst snd vx vy]. unops.
+  rewrite (Reqb_f ax bx) by lra.
+  rewrite (Rmax_lt ax bx), (Rmin_lt ax bx) by lra. rewrite (Rleb_f bx mn), (Rleb_f mx ax) by lra. cbn [orb].
+  rewrite (Rmax_lt ax mn), (Rmin_lt mn mx), (Rmax_gt bx mn), (Rmin_lt bx mx) by lra.
+  rewrite (Reqb_t bx bx) by reflexivity. rewrite (Reqb_f mn ax) by lra. cbn [negb].
+  assert (Hs : 0 <= (mn - ax) / (bx - ax) <= 1).
+  { split; [apply Rlt_le; apply Rdiv_lt_0_compat; lra|].
+    apply Rmult_le_reg_r with (bx - ax); [lra|]. replace ((mn - ax) / (bx - ax) * (bx - ax)) with (mn - ax) by (field; lra). lra. }
+  rewrite (clamp_between ay by_ _ Hs). do 3 f_equal; [field; lra | ring].
+Qed.
+(* ... going down: the part up to the crossing point *)
+Lemma clip_cut_lo_bwd (l : SegR) (mn mx : R) :
+  mn < vx (fst l) <= mx -> vx (snd l) < mn -> clipR l mn mx = Some (fst l, cutpt l mn).
+Proof.
+  destruct l as [[ax ay] [bx by_]]; cbn [fst snd vx vy]. intros HA HB.
+  unfold line_clip, cutpt, pt; cbn [fst snd vx vy]. unops.
+  rewrite (Reqb_f ax bx) by lra.
+  rewrite (Rmax_gt ax bx), (Rmin_gt ax bx) by lra. rewrite (Rleb_f ax mn), (Rleb_f mx bx) by lra. cbn [orb].
+  rewrite (Rmax_gt ax mn), (Rmin_lt ax mx), (Rmax_lt bx mn), (Rmin_lt mn mx) by lra.
+  rewrite (Reqb_t ax ax) by reflexivity. rewrite (Reqb_f mn bx) by lra. cbn [negb].
+  assert (Hs : 0 <= (mn - ax) / (bx - ax) <= 1).
+  { replace ((mn - ax) / (bx - ax)) with ((ax - mn) / (ax - bx)) by (field; lra).
+    split; [apply Rlt_le; apply Rdiv_lt_0_compat; lra|].
+    apply Rmult_le_reg_r with (ax - bx); [lra|]. replace ((ax - mn) / (ax - bx) * (ax - bx)) with (ax - mn) by (field; lra). lra. }
+  rewrite (clamp_between ay by_ _ Hs). do 3 f_equal; [field; lra | ring].
+Qed.
+
+Lemma classic_eq2 (a b c : R) : (a = b /\ a = c) \/ ~ (a = b /\ a = c).
+Proof. destruct (Req_dec a b); destruct (Req_dec a c); tauto. Qed.
+
+(* ------------------------------------------------------------ splitting a range at c *)
+(* a and b lie in [mn, mx], and the line is not one running along mx *)
+Definition own1 (mn mx a b : R) : Prop := mn <= a <= mx /\ mn <= b <= mx /\ ~ (a = b /\ a = mx).
+
+(* what the two halves [mn,c], [c,mx] of a range return for a line owned by the range *)
+Inductive split2 (l : SegR) (L Rr : option SegR) : Prop :=
+| S2l : L = Some l -> Rr = None -> split2 l L Rr
+| S2r : L = None -> Rr = Some l -> split2 l L Rr
+| S2c (C : V) (s : R) : between (fst l) (snd l) C s -> L = Some (fst l, C) -> Rr = Some (C, snd l) -> split2 l L Rr
+| S2d (C : V) (s : R) : between (fst l) (snd l) C s -> L = Some (C, snd l) -> Rr = Some (fst l, C) -> split2 l L Rr.
+
+Ltac own_tac :=
+  unfold own1; repeat split; try lra;
+  try (let H1 := fresh in let H2 := fresh in intros [H1 H2]; try lra;
+       match goal with Hn : ~ _ |- _ => apply Hn; split; lra end).
+Lemma clip_split (l : SegR) (mn c mx : R) :
+  own1 mn mx (vx (fst l)) (vx (snd l)) -> mn < c < mx ->
+  split2 l (clipR l mn c) (clipR l c mx) /\
+  (forall P, clipR l mn c = Some P -> own1 mn c (vx (fst P)) (vx (snd P))) /\
+  (forall P, clipR l c mx = Some P -> own1 c mx (vx (fst P)) (vx (snd P))).
+Proof.
+  intros (HA & HB & Hn) Hc.
+  set (ax := vx (fst l)) in *. set (bx := vx (snd l)) in *.
+  destruct (Rle_dec ax c) as [Ha|Ha]; destruct (Rle_dec bx c) as [Hb|Hb].
+  - destruct (classic_eq2 ax bx c) as [E|E].
+    + (* the vertical line along c: right half *)
+      destruct E as [E1 E2].
+      assert (L : clipR l mn c = None) by (apply clip_above; fold ax bx; lra).
+      assert (Rr : clipR l c mx = Some l) by (apply clip_inside; fold ax bx; try lra; intros [? ?]; apply Hn; split; lra).
+      rewrite L, Rr. split; [apply S2r; reflexivity|]. split; [discriminate|].
+      intros P HP. inversion HP; subst P. fold ax bx. own_tac.
+    + assert (L : clipR l mn c = Some l) by (apply clip_inside; fold ax bx; try lra; exact E).
+      assert (Rr : clipR l c mx = None) by (apply clip_below; fold ax bx; try lra; exact E).
+      rewrite L, Rr. split; [apply S2l; reflexivity|]. split; [|discriminate].
+      intros P HP. inversion HP; subst P. fold ax bx. own_tac.
+  - (* ax <= c < bx *)
+    destruct (Req_dec ax c) as [E|E].
+    + assert (L : clipR l mn c = None) by (apply clip_above; fold ax bx; lra).
+      assert (Rr : clipR l c mx = Some l) by (apply clip_inside; fold ax bx; try lra; intros [? ?]; lra).
+      rewrite L, Rr. split; [apply S2r; reflexivity|]. split; [discriminate|].
+      intros P HP. inversion HP; subst P. fold ax bx. own_tac.
+    + assert (Hlt : ax < c < bx) by lra.
+      destruct (cutpt_between l c (or_introl Hlt)) as [Hbt Hcx].
+      assert (L : clipR l mn c = Some (fst l, cutpt l c)) by (apply clip_cut_hi_fwd; fold ax bx; lra).
+      assert (Rr : clipR l c mx = Some (cutpt l c, snd l)) by (apply clip_cut_lo_fwd; fold ax bx; lra).
+      rewrite L, Rr. split; [eapply S2c; [exact Hbt | reflexivity | reflexivity]|]. split.
+      * intros P HP. inversion HP; subst P. cbn [fst snd]. rewrite Hcx. fold ax. own_tac.
+      * intros P HP. inversion HP; subst P. cbn [fst snd]. rewrite Hcx. fold bx. own_tac.
+  - (* bx <= c < ax *)
+    destruct (Req_dec bx c) as [E|E].
+    + assert (L : clipR l mn c = None) by (apply clip_above; fold ax bx; lra).
+      assert (Rr : clipR l c mx = Some l) by (apply clip_inside; fold ax bx; try lra; intros [? ?]; lra).
+      rewrite L, Rr. split; [apply S2r; reflexivity|]. split; [discriminate|].
+      intros P HP. inversion HP; subst P. fold ax bx. own_tac.
+    + assert (Hlt : bx < c < ax) by lra.
+      destruct (cutpt_between l c (or_intror Hlt)) as [Hbt Hcx].
+      assert (L : clipR l mn c = Some (cutpt l c, snd l)) by (apply clip_cut_hi_bwd; fold ax bx; lra).
+      assert (Rr : clipR l c mx = Some (fst l, cutpt l c)) by (apply clip_cut_lo_bwd; fold ax bx; lra).
+      rewrite L, Rr. split; [eapply S2d; [exact Hbt | reflexivity | reflexivity]|]. split.
+      * intros P HP. inversion HP; subst P. cbn [fst snd]. rewrite Hcx. fold bx. own_tac.
+      * intros P HP. inversion HP; subst P. cbn [fst snd]. rewrite Hcx. fold ax. own_tac.
+  - (* both beyond c *)
+    assert (L : clipR l mn c = None) by (apply clip_above; fold ax bx; lra).
+    assert (Rr : clipR l c mx = Some l) by (apply clip_inside; fold ax bx; try lra; exact Hn).
+    rewrite L, Rr. split; [apply S2r; reflexivity|]. split; [discriminate|].
+    intros P HP. inversion HP; subst P. fold ax bx. own_tac.
+Qed.
+
+(* a sub-piece of a line owned by a range (in the other coordinate) is owned by that range *)
+Lemma own1_sub_x (A B C : V) (s lo hi : R) : between A B C s -> own1 lo hi (vx A) (vx B) ->
+  own1 lo hi (vx A) (vx C) /\ own1 lo hi (vx C) (vx B).
+Proof.
+  intros ((Hs0 & Hs1) & Hx & Hy) (HA & HB & Hn). rewrite Hx.
+  assert (lo <= vx A + s * (vx B - vx A) <= hi) by nra.
+  unfold own1. repeat split; try lra.
+  - intros [E1 E2]. assert (vx B = vx A) by nra. apply Hn. split; lra.
+  - intros [E1 E2]. assert (vx B = vx A) by nra. apply Hn. split; lra.
+Qed.
+Lemma own1_sub_y (A B C : V) (s lo hi : R) : between A B C s -> own1 lo hi (vy A) (vy B) ->
+  own1 lo hi (vy A) (vy C) /\ own1 lo hi (vy C) (vy B).
+Proof.
+  intros ((Hs0 & Hs1) & Hx & Hy) (HA & HB & Hn). rewrite Hy.
+  assert (lo <= vy A + s * (vy B - vy A) <= hi) by nra.
+  unfold own1. repeat split; try lra.
+  - intros [E1 E2]. assert (vy B = vy A) by nra. apply Hn. split; lra.
+  - intros [E1 E2]. assert (vy B = vy A) by nra. apply Hn. split; lra.
+Qed.
+
+(* the pieces named by split2 and their ownership in the other coordinate *)
+Lemma split2_own_y (l : SegR) (L Rr : option SegR) (lo hi : R) :
+  split2 l L Rr -> own1 lo hi (vy (fst l)) (vy (snd l)) ->
+  forall P, (L = Some P \/ Rr = Some P) -> own1 lo hi (vy (fst P)) (vy (snd P)).
+Proof.
+  intros H Ho P HP.
+  destruct H as [HL HR | HL HR | C s Hb HL HR | C s Hb HL HR]; rewrite HL, HR in HP;
+    destruct HP as [HP|HP]; try discriminate; inversion HP; subst P; cbn [fst snd]; try exact Ho;
+    destruct (own1_sub_y _ _ _ s lo hi Hb Ho); assumption.
+Qed.
+Lemma split2_own_x (l : SegR) (L Rr : option SegR) (lo hi : R) :
+  split2 l L Rr -> own1 lo hi (vx (fst l)) (vx (snd l)) ->
+  forall P, (L = Some P \/ Rr = Some P) -> own1 lo hi (vx (fst P)) (vx (snd P)).
+Proof.
+  intros H Ho P HP.
+  destruct H as [HL HR | HL HR | C s Hb HL HR | C s Hb HL HR]; rewrite HL, HR in HP;
+    destruct HP as [HP|HP]; try discriminate; inversion HP; subst P; cbn [fst snd]; try exact Ho;
+    destruct (own1_sub_x _ _ _ s lo hi Hb Ho); assumption.
+Qed.
+
+(* the two halves return a chain of the line (in some order) *)
+Lemma is_chain_self (l : SegR) : is_chain l [l].
+Proof. destruct l as [A B]. unfold is_chain; cbn [fst snd]. apply chain_last; [symmetry; apply pt_0 | lra]. Qed.
+Lemma between_eq (A B C : V) (s : R) : between A B C s -> C = pt A B s.
+Proof. intros (_ & Hx & Hy). destruct C as [cx cy]. unfold pt. cbn [vx vy] in *. subst. reflexivity. Qed.
+Lemma is_chain_cut (A B C : V) (s : R) : between A B C s -> is_chain (A, B) [(A, C); (C, B)].
+Proof.
+  intros Hb. pose proof (between_eq _ _ _ _ Hb) as EC. destruct Hb as (Hs & _).
+  unfold is_chain; cbn [fst snd].
+  apply (chain_cons _ _ A C 0 s); [symmetry; apply pt_0 | exact EC | lra|].
+  apply chain_last; [exact EC | lra].
+Qed.
+Lemma split2_chain (l : SegR) (L Rr : option SegR) : split2 l L Rr ->
+  exists ch, is_chain l ch /\ Permutation (o2l L ++ o2l Rr) ch.
+Proof.
+  intros [HL HR | HL HR | C s Hb HL HR | C s Hb HL HR]; rewrite HL, HR; cbn [o2l app].
+  - exists [l]. split; [apply is_chain_self | apply Permutation_refl].
+  - exists [l]. split; [apply is_chain_self | apply Permutation_refl].
+  - exists [(fst l, C); (C, snd l)]. split; [destruct l; apply (is_chain_cut _ _ _ s Hb) | apply Permutation_refl].
+  - exists [(fst l, C); (C, snd l)]. split; [destruct l; apply (is_chain_cut _ _ _ s Hb) | apply perm_swap].
+Qed.
+
+(* ------------------------------------------------------------ the other coordinate: swap *)
+Notation swp := (@swap_xy ROps).
+Definition swv (p : V) : V := mkV2 (vy p) (vx p).
+Lemma swp_swp (l : SegR) : swp (swp l) = l.
+Proof. destruct l as [[ax ay] [bx by_]]. reflexivity. Qed.
+Lemma swp_pair (A B : V) : swp (A, B) = (swv A, swv B).
+Proof. reflexivity. Qed.
+Lemma swv_swv (p : V) : swv (swv p) = p. Proof. destruct p; reflexivity. Qed.
+Lemma between_swv (A B C : V) (s : R) : between (swv A) (swv B) C s -> between A B (swv C) s.
+Proof. unfold between, swv; cbn [vx vy]. tauto. Qed.
+
+Definition clipY (l : SegR) (mn mx : R) : option SegR := option_map swp (clipR (swp l) mn mx).
+
+Lemma split2_swp (l : SegR) (L Rr : option SegR) : split2 (swp l) L Rr -> split2 l (option_map swp L) (option_map swp Rr).
+Proof.
+  destruct l as [A B]. rewrite swp_pair. cbn [fst snd].
+  intros [HL HR | HL HR | C s Hb HL HR | C s Hb HL HR]; rewrite HL, HR; cbn [option_map].
+  - apply S2l; [|reflexivity]. rewrite <- swp_pair, swp_swp. reflexivity.
+  - apply S2r; [reflexivity|]. rewrite <- swp_pair, swp_swp. reflexivity.
+  - apply (S2c _ _ _ (swv C) s); cbn [fst snd]; [apply between_swv; exact Hb | |]; rewrite swp_pair, swv_swv; reflexivity.
+  - apply (S2d _ _ _ (swv C) s); cbn [fst snd]; [apply between_swv; exact Hb | |]; rewrite swp_pair, swv_swv; reflexivity.
+Qed.
+
+Lemma clipY_split (l : SegR) (mn c mx : R) :
+  own1 mn mx (vy (fst l)) (vy (snd l)) -> mn < c < mx ->
+  split2 l (clipY l mn c) (clipY l c mx) /\
+  (forall P, clipY l mn c = Some P -> own1 mn c (vy (fst P)) (vy (snd P))) /\
+  (forall P, clipY l c mx = Some P -> own1 c mx (vy (fst P)) (vy (snd P))).
+Proof.
+  intros Ho Hc. destruct (clip_split (swp l) mn c mx) as (H2 & HL & HR); [destruct l as [[? ?] [? ?]]; exact Ho | exact Hc |].
+  split; [apply split2_swp; exact H2|]. unfold clipY. split.
+  - intros P HP. destruct (clipR (swp l) mn c) as [Q|]; [|discriminate]. inversion HP; subst P.
+    specialize (HL Q eq_refl). destruct Q as [[? ?] [? ?]]. exact HL.
+  - intros P HP. destruct (clipR (swp l) c mx) as [Q|]; [|discriminate]. inversion HP; subst P.
+    specialize (HR Q eq_refl). destruct Q as [[? ?] [? ?]]. exact HR.
+Qed.
+
+(* ------------------------------------------------------------ chains of chains *)
+Lemma pt_pt (A B : V) (t0 t1 u : R) : pt (pt A B t0) (pt A B t1) u = pt A B (t0 + u * (t1 - t0)).
+Proof. destruct A as [ax ay], B as [bx by_]. unfold pt; cbn [vx vy]. f_equal; ring. Qed.
+
+(* a chain of the sub-segment [t0,t1] of AB, followed by a chain of the rest, is a chain of AB *)
+Lemma chain_from_sub (A B : V) (t0 t1 : R) (rest : list SegR) : t0 < t1 -> t1 < 1 -> chain_from A B t1 rest ->
+  forall (u : R) (pcs : list SegR), 0 <= u -> chain_from (pt A B t0) (pt A B t1) u pcs ->
+  chain_from A B (t0 + u * (t1 - t0)) (pcs ++ rest).
+Proof.
+  intros H01 H1 Hrest u pcs Hu Hc.
+  remember (pt A B t0) as A' eqn:EA. remember (pt A B t1) as B' eqn:EB.
+  induction Hc as [S u ES Hlt | S C u u1 rest' ES EC Hlt Hc IH]; subst A' B'.
+  - cbn [app]. apply (chain_cons A B S (pt A B t1) _ t1); [rewrite ES; apply pt_pt | reflexivity | nra | exact Hrest].
+  - cbn [app]. apply (chain_cons A B S C _ (t0 + u1 * (t1 - t0))); [rewrite ES; apply pt_pt | rewrite EC; apply pt_pt | nra |].
+    apply IH; first [lra | reflexivity].
+Qed.
+Lemma pt_pt1 (A B : V) (t0 u : R) : pt (pt A B t0) B u = pt A B (t0 + u * (1 - t0)).
+Proof. destruct A as [ax ay], B as [bx by_]. unfold pt; cbn [vx vy]. f_equal; ring. Qed.
+Lemma chain_from_tail (A B : V) (t0 : R) : t0 < 1 ->
+  forall (u : R) (pcs : list SegR), 0 <= u -> chain_from (pt A B t0) B u pcs -> chain_from A B (t0 + u * (1 - t0)) pcs.
+Proof.
+  intros H0 u pcs Hu Hc. remember (pt A B t0) as A' eqn:EA.
+  induction Hc as [S u ES Hlt | S C u u1 rest' ES EC Hlt Hc IH]; subst A'.
+  - apply chain_last; [rewrite ES; apply pt_pt1 | nra].
+  - apply (chain_cons A B S C _ (t0 + u1 * (1 - t0))); [rewrite ES; apply pt_pt1 | rewrite EC; apply pt_pt1 | nra |].
+    apply IH; first [lra | reflexivity].
+Qed.
+
+Lemma chain_flatten_from (A B : V) : forall (t : R * list SegR), chain_from A B (fst t) (snd t) ->
+  forall CH, Forall2 is_chain (snd t) CH -> chain_from A B (fst t) (concat CH).
+Proof.
+  intros [ta c]; cbn [fst snd]. intros Hch.
+  induction Hch as [S t0 ES Hlt | S C t0 t1 rest ES EC Hlt Hc IH]; intros CH HF.
+  - subst S. inversion HF as [|? ch1 ? CH' H1 HF']; subst. inversion HF'; subst. cbn [concat]. rewrite app_nil_r.
+    unfold is_chain in H1; cbn [fst snd] in H1.
+    replace t0 with (t0 + 0 * (1 - t0)) by ring. apply chain_from_tail; [exact Hlt | lra | exact H1].
+  - subst S C. inversion HF as [|? ch1 ? CH' H1 HF']; subst. cbn [concat].
+    unfold is_chain in H1; cbn [fst snd] in H1.
+    replace t0 with (t0 + 0 * (t1 - t0)) by ring.
+    apply chain_from_sub; [lra | lra | apply IH; exact HF' | lra | exact H1].
+Qed.
+Lemma chain_flatten (l : SegR) (c : list SegR) (CH : list (list SegR)) :
+  is_chain l c -> Forall2 is_chain c CH -> is_chain l (concat CH).
+Proof. unfold is_chain at 1 3. intros H HF. exact (chain_flatten_from _ _ (0, c) H CH HF). Qed.
+
+Lemma Permutation_concat {A} (m m' : list (list A)) : Permutation m m' -> Permutation (concat m) (concat m').
+Proof.
+  induction 1 as [| x m m' H IH | x y m | m m' m'' H1 IH1 H2 IH2]; cbn [concat].
+  - apply Permutation_refl.
+  - apply Permutation_app_head. exact IH.
+  - rewrite !app_assoc. apply Permutation_app_tail. apply Permutation_app_comm.
+  - exact (perm_trans IH1 IH2).
+Qed.
+Lemma Forall2_perm {A B} (P : A -> B -> Prop) (l l' : list A) : Permutation l l' ->
+  forall m, Forall2 P l m -> exists m', Permutation m m' /\ Forall2 P l' m'.
+Proof.
+  induction 1 as [| x l l' H IH | x y l | l l' l'' H1 IH1 H2 IH2]; intros m HF.
+  - inversion HF; subst. exists []. split; [apply Permutation_refl | constructor].
+  - inversion HF as [|? b ? m0 Hb HF']; subst. destruct (IH m0 HF') as (m' & Hp & HF'').
+    exists (b :: m'). split; [apply perm_skip; exact Hp | constructor; assumption].
+  - inversion HF as [|? b ? m0 Hb HF']; subst. inversion HF' as [|? b' ? m1 Hb' HF'']; subst.
+    exists (b' :: b :: m1). split; [apply perm_swap | repeat constructor; assumption].
+  - destruct (IH1 m HF) as (m' & Hp & HF'). destruct (IH2 m' HF') as (m'' & Hp' & HF'').
+    exists m''. split; [exact (perm_trans Hp Hp') | exact HF''].
+Qed.
+
+(* every segment is the chain of its pieces PS (up to order), every piece the chain of its own
+   pieces: every segment is the chain of the pieces of its pieces *)
+Lemma refine_concat (ls : list SegR) (cs : list (list SegR)) : Forall2 is_chain ls cs ->
+  forall CH, Forall2 is_chain (concat cs) CH ->
+  exists chains, Forall2 is_chain ls chains /\ concat CH = concat chains.
+Proof.
+  induction 1 as [|l c ls cs Hc HF IH]; intros CH HCH.
+  - cbn [concat] in HCH. inversion HCH; subst. exists []. split; [constructor | reflexivity].
+  - cbn [concat] in HCH. apply Forall2_app_inv_l in HCH. destruct HCH as (CH1 & CH2 & H1 & H2 & ->).
+    destruct (IH CH2 H2) as (chains & HF' & E).
+    exists (concat CH1 :: chains). split; [constructor; [exact (chain_flatten l c CH1 Hc H1) | exact HF']|].
+    rewrite concat_app. cbn [concat]. rewrite E. reflexivity.
+Qed.
+Lemma refine_chains (ls PS : list SegR) (cs CH : list (list SegR)) :
+  Forall2 is_chain ls cs -> Permutation PS (concat cs) -> Forall2 is_chain PS CH ->
+  exists chains, Forall2 is_chain ls chains /\ Permutation (concat CH) (concat chains).
+Proof.
+  intros Hcs Hp HCH. destruct (Forall2_perm _ _ _ Hp CH HCH) as (CH' & Hp' & HCH').
+  destruct (refine_concat ls cs Hcs CH' HCH') as (chains & HF & E).
+  exists chains. split; [exact HF|]. rewrite <- E. apply Permutation_concat. exact Hp'.
+Qed.
+
+(* ------------------------------------------------------------ lineIntersect *)
+(* x-range first, then the y-range of the result *)
+Definition clip2 (a : Box2 ROps) (l : SegR) : option SegR :=
+  match clipR l (vx (b2min a)) (vx (b2max a)) with
+  | None => None
+  | Some x => clipY x (vy (b2min a)) (vy (b2max a))
+  end.
+
+Lemma Rmin_Rmax_same (z a : R) : Rmin (Rmax z a) a = a.
+Proof. apply Rmin_right. apply Rmax_r. Qed.
+
+(* clipping a horizontal line leaves it at its level *)
+Lemma clip_horizontal_level (l S : SegR) (mn mx : R) : vy (fst l) = vy (snd l) -> clipR l mn mx = Some S ->
+  vy (fst S) = vy (fst l) /\ vy (snd S) = vy (fst l).
+Proof.
+  destruct l as [[ax ay] [bx by_]]; cbn [fst snd vx vy]. intros E. subst by_.
+  unfold line_clip; cbn [fst snd vx vy]. unops.
+  destruct (Reqb ax bx); [destruct (_ || _); [discriminate|]; intros H; inversion H; subst S; split; reflexivity|].
+  destruct (_ || _); [discriminate|]. intros H; inversion H; subst S; clear H. cbn [fst snd].
+  unfold idn. rewrite (Rmin_lt ay ay), (Rmax_lt ay ay) by lra.
+  split; match goal with |- context [negb ?b] => destruct b end; cbn [negb vy]; try reflexivity; apply Rmin_Rmax_same.
+Qed.
+
+(* the checks in front of the clipping (lines along the top / right edge, the early exit for a line
+   inside the box) do not change the result *)
+Lemma lineR_clip2 (a : Box2 ROps) (l : SegR) : lineR a l = clip2 a l.
+Proof.
+  unfold line_intersect, clip2.
+  set (mnx := vx (b2min a)). set (mxx := vx (b2max a)). set (mny := vy (b2min a)). set (mxy := vy (b2max a)).
+  destruct l as [[ax ay] [bx by_]]. unfold v2sub; cbn [fst snd vx vy]. unops.
+  destruct (Reqb (by_ - ay) 0 && Reqb ay mxy) eqn:F1.
+  { (* a horizontal line along the top edge *)
+    apply andb_true_iff in F1. destruct F1 as [E1 E2]. apply Reqb_true in E1, E2.
+    destruct (clipR (mkV2 ax ay, mkV2 bx by_) mnx mxx) as [S|] eqn:EX; [|reflexivity].
+    assert (Hh : vy (fst (mkV2 ax ay : V, mkV2 bx by_ : V)) = vy (snd (mkV2 ax ay : V, mkV2 bx by_ : V))) by (cbn [fst snd vy]; lra).
+    destruct (clip_horizontal_level _ S mnx mxx Hh EX) as [L1 L2]. cbn [fst snd vy] in L1, L2.
+    unfold clipY. destruct S as [[sx sy] [tx ty]]. unfold swap_xy in *. cbn [fst snd vx vy] in *.
+    rewrite clip_vertical by (cbn [fst snd vx vy]; lra). cbn [fst snd vx vy].
+    rewrite (Rleb_t mxy sy) by lra. rewrite orb_true_r. reflexivity. }
+  destruct (Reqb (bx - ax) 0 && Reqb ax mxx) eqn:F2.
+  { (* a vertical line along the right edge *)
+    apply andb_true_iff in F2. destruct F2 as [E1 E2]. apply Reqb_true in E1, E2.
+    rewrite clip_vertical by (cbn [fst snd vx]; lra). cbn [fst snd vx].
+    rewrite (Rleb_t mxx ax) by lra. rewrite orb_true_r. reflexivity. }
+  destruct (box2_contains a (mkV2 ax ay) && box2_contains a (mkV2 bx by_)) eqn:F3.
+  { (* the early exit *)
+    apply andb_true_iff in F3. destruct F3 as [CA CB]. unfold box2_contains in CA, CB. cbn [vx vy] in CA, CB. unops.
+    fold mnx mxx mny mxy in CA, CB.
+    repeat (apply andb_true_iff in CA; destruct CA as [CA ?]). repeat (apply andb_true_iff in CB; destruct CB as [CB ?]).
+    repeat match goal with H : Rleb _ _ = true |- _ => apply Rleb_true in H end.
+    assert (N1 : ~ (ay = by_ /\ ay = mxy)).
+    { intros [? ?]. apply andb_false_iff in F1. destruct F1 as [F|F]; apply Reqb_false in F; lra. }
+    assert (N2 : ~ (ax = bx /\ ax = mxx)).
+    { intros [? ?]. apply andb_false_iff in F2. destruct F2 as [F|F]; apply Reqb_false in F; lra. }
+    rewrite clip_inside by (cbn [fst snd vx]; first [lra | exact N2]).
+    unfold clipY, swap_xy. cbn [fst snd vx vy]. rewrite clip_inside by (cbn [fst snd vx]; first [lra | exact N1]).
+    reflexivity. }
+  destruct (clipR (mkV2 ax ay, mkV2 bx by_) mnx mxx) as [S|]; [|reflexivity].
+  unfold clipY. destruct (clipR (swap_xy S) mny mxy); reflexivity.
+Qed.
+
+(* ------------------------------------------------------------ the four quadrants of a box *)
+Definition good (a : Box2 ROps) : Prop := vx (b2min a) < vx (b2max a) /\ vy (b2min a) < vy (b2max a).
+(* the line lies in the (closed) box and does not run along its top or right edge *)
+Definition owned (a : Box2 ROps) (l : SegR) : Prop :=
+  own1 (vx (b2min a)) (vx (b2max a)) (vx (fst l)) (vx (snd l)) /\
+  own1 (vy (b2min a)) (vy (b2max a)) (vy (fst l)) (vy (snd l)).
+
+Lemma half_val : @half ROps = / 2.
+Proof. unfold half, two. unops. field. Qed.
+
+Lemma perm_4 {A} (a b c d : list A) : Permutation (a ++ b ++ c ++ d) ((a ++ c) ++ (b ++ d)).
+Proof.
+  rewrite <- app_assoc. apply Permutation_app_head.
+  rewrite !app_assoc. apply Permutation_app_tail. apply Permutation_app_comm.
+Qed.
+
+Lemma split2_some (l : SegR) : ~ split2 l None None.
+Proof. intros [HL HR | HL HR | C s Hb HL HR | C s Hb HL HR]; discriminate. Qed.
+
+Definition ccx (a : Box2 ROps) : R := vx (b2min a) + (vx (b2max a) - vx (b2min a)) * / 2.
+Definition ccy (a : Box2 ROps) : R := vy (b2min a) + (vy (b2max a) - vy (b2min a)) * / 2.
+Lemma quad0_eq a : quad0 a = mkBox2 (mkV2 (vx (b2min a)) (vy (b2min a))) (mkV2 (ccx a) (ccy a)).
+Proof. unfold quad0, box2_size, v2add, v2muls, v2sub, ccx, ccy. rewrite half_val. destruct a as [[? ?] [? ?]]. reflexivity. Qed.
+Lemma quad1_eq a : quad1 a = mkBox2 (mkV2 (ccx a) (vy (b2min a))) (mkV2 (vx (b2max a)) (ccy a)).
+Proof. unfold quad1, box2_size, v2add, v2muls, v2sub, ccx, ccy. rewrite half_val. destruct a as [[? ?] [? ?]]. reflexivity. Qed.
+Lemma quad2_eq a : quad2 a = mkBox2 (mkV2 (vx (b2min a)) (ccy a)) (mkV2 (ccx a) (vy (b2max a))).
+Proof. unfold quad2, box2_size, v2add, v2muls, v2sub, ccx, ccy. rewrite half_val. destruct a as [[? ?] [? ?]]. reflexivity. Qed.
+Lemma quad3_eq a : quad3 a = mkBox2 (mkV2 (ccx a) (ccy a)) (mkV2 (vx (b2max a)) (vy (b2max a))).
+Proof. unfold quad3, box2_size, v2add, v2muls, v2sub, ccx, ccy. rewrite half_val. destruct a as [[? ?] [? ?]]. reflexivity. Qed.
+
+Section Quad.
+  Variable a : Box2 ROps.
+  Variable l : SegR.
+  Hypothesis Hg : good a.
+  Hypothesis Ho : owned a l.
+  Let mnx := vx (b2min a). Let mxx := vx (b2max a). Let mny := vy (b2min a). Let mxy := vy (b2max a).
+  Let cx := ccx a. Let cy := ccy a.
+
+  Lemma cx_in : mnx < cx < mxx. Proof. destruct Hg. unfold cx, ccx, mnx, mxx. lra. Qed.
+  Lemma cy_in : mny < cy < mxy. Proof. destruct Hg. unfold cy, ccy, mny, mxy. lra. Qed.
+
+  (* (7) FULL: the pieces the four quadrants return for a line owned by the box are a chain of the
+     line - none lost, none doubled, joints on the line - and each is owned by its quadrant *)
+  Theorem quad_split :
+    exists ch, is_chain l ch /\
+      Permutation (o2l (lineR (quad0 a) l) ++ o2l (lineR (quad1 a) l) ++ o2l (lineR (quad2 a) l) ++ o2l (lineR (quad3 a) l)) ch /\
+      (forall P, lineR (quad0 a) l = Some P -> owned (quad0 a) P) /\
+      (forall P, lineR (quad1 a) l = Some P -> owned (quad1 a) P) /\
+      (forall P, lineR (quad2 a) l = Some P -> owned (quad2 a) P) /\
+      (forall P, lineR (quad3 a) l = Some P -> owned (quad3 a) P).
+  Proof.
+    rewrite !lineR_clip2. rewrite quad0_eq, quad1_eq, quad2_eq, quad3_eq. unfold clip2, owned. cbn [b2min b2max vx vy].
+    fold mnx mxx mny mxy cx cy.
+    destruct Ho as [Hox Hoy]. fold mnx mxx in Hox. fold mny mxy in Hoy.
+    destruct (clip_split l mnx cx mxx Hox cx_in) as (H2 & HL & HR).
+    pose proof (split2_own_y l _ _ mny mxy H2 Hoy) as HY.
+    pose proof (split2_chain l _ _ H2) as (chX & HcX & HpX).
+    destruct (clipR l mnx cx) as [S1|] eqn:E1; destruct (clipR l cx mxx) as [S2|] eqn:E2.
+    - (* pieces in both halves *)
+      specialize (HL S1 eq_refl). specialize (HR S2 eq_refl).
+      destruct (clipY_split S1 mny cy mxy (HY S1 (or_introl eq_refl)) cy_in) as (Y1 & Y1L & Y1R).
+      destruct (clipY_split S2 mny cy mxy (HY S2 (or_intror eq_refl)) cy_in) as (Y2 & Y2L & Y2R).
+      destruct (split2_chain S1 _ _ Y1) as (ch1 & Hc1 & Hp1). destruct (split2_chain S2 _ _ Y2) as (ch2 & Hc2 & Hp2).
+      destruct (refine_chains [l] [S1; S2] [chX] [ch1; ch2]) as (chains & HF & Hp).
+      { constructor; [exact HcX | constructor]. } { cbn [concat]. rewrite app_nil_r. exact HpX. }
+      { constructor; [exact Hc1 | constructor; [exact Hc2 | constructor]]. }
+      inversion HF as [|? ch ? chs Hch HF']; subst. inversion HF'; subst. cbn [concat] in Hp. rewrite !app_nil_r in Hp.
+      exists ch. split; [exact Hch|]. split.
+      { eapply perm_trans; [apply perm_4|]. eapply perm_trans; [|exact Hp]. apply Permutation_app; assumption. }
+      refine (conj _ (conj _ (conj _ _))); intros P HP; (split; [|]).
+      all: try (exact (split2_own_x S1 _ _ mnx cx Y1 HL P (or_introl HP))).
+      all: try (exact (split2_own_x S1 _ _ mnx cx Y1 HL P (or_intror HP))).
+      all: try (exact (split2_own_x S2 _ _ cx mxx Y2 HR P (or_introl HP))).
+      all: try (exact (split2_own_x S2 _ _ cx mxx Y2 HR P (or_intror HP))).
+      all: first [exact (Y1L P HP) | exact (Y1R P HP) | exact (Y2L P HP) | exact (Y2R P HP)].
+    - (* left half only *)
+      specialize (HL S1 eq_refl).
+      destruct (clipY_split S1 mny cy mxy (HY S1 (or_introl eq_refl)) cy_in) as (Y1 & Y1L & Y1R).
+      destruct (split2_chain S1 _ _ Y1) as (ch1 & Hc1 & Hp1).
+      destruct (refine_chains [l] [S1] [chX] [ch1]) as (chains & HF & Hp).
+      { constructor; [exact HcX | constructor]. } { cbn [concat]. rewrite app_nil_r. exact HpX. }
+      { constructor; [exact Hc1 | constructor]. }
+      inversion HF as [|? ch ? chs Hch HF']; subst. inversion HF'; subst. cbn [concat] in Hp. rewrite !app_nil_r in Hp.
+      exists ch. split; [exact Hch|]. split.
+      { cbn [o2l app]. rewrite ?app_nil_r. eapply perm_trans; [|exact Hp]. exact Hp1. }
+      refine (conj _ (conj _ (conj _ _))); intros P HP; try discriminate; (split; [|]).
+      all: try (exact (split2_own_x S1 _ _ mnx cx Y1 HL P (or_introl HP))).
+      all: try (exact (split2_own_x S1 _ _ mnx cx Y1 HL P (or_intror HP))).
+      all: first [exact (Y1L P HP) | exact (Y1R P HP)].
+    - (* right half only *)
+      specialize (HR S2 eq_refl).
+      destruct (clipY_split S2 mny cy mxy (HY S2 (or_intror eq_refl)) cy_in) as (Y2 & Y2L & Y2R).
+      destruct (split2_chain S2 _ _ Y2) as (ch2 & Hc2 & Hp2).
+      destruct (refine_chains [l] [S2] [chX] [ch2]) as (chains & HF & Hp).
+      { constructor; [exact HcX | constructor]. } { cbn [concat]. rewrite app_nil_r. exact HpX. }
+      { constructor; [exact Hc2 | constructor]. }
+      inversion HF as [|? ch ? chs Hch HF']; subst. inversion HF'; subst. cbn [concat] in Hp. rewrite !app_nil_r in Hp.
+      exists ch. split; [exact Hch|]. split.
+      { cbn [o2l app]. rewrite ?app_nil_r. eapply perm_trans; [|exact Hp]. exact Hp2. }
+      refine (conj _ (conj _ (conj _ _))); intros P HP; try discriminate; (split; [|]).
+      all: try (exact (split2_own_x S2 _ _ cx mxx Y2 HR P (or_introl HP))).
+      all: try (exact (split2_own_x S2 _ _ cx mxx Y2 HR P (or_intror HP))).
+      all: first [exact (Y2L P HP) | exact (Y2R P HP)].
+    - exfalso. exact (split2_some l H2).
+  Qed.
+End Quad.
+
+(* ------------------------------------------------------------ qtBuild *)
+Notation buildR := (@qt_build ROps idn).
+Notation filterR := (@line_filter ROps idn).
+
+Definition contained (a : Box2 ROps) (l : SegR) : Prop :=
+  (vx (b2min a) <= vx (fst l) <= vx (b2max a) /\ vx (b2min a) <= vx (snd l) <= vx (b2max a)) /\
+  (vy (b2min a) <= vy (fst l) <= vy (b2max a) /\ vy (b2min a) <= vy (snd l) <= vy (b2max a)).
+Lemma owned_contained a l : owned a l -> contained a l.
+Proof. intros [(H1 & H2 & _) (H3 & H4 & _)]. split; split; assumption. Qed.
+
+Definition square (a : Box2 ROps) : Prop := vx (b2max a) - vx (b2min a) = vy (b2max a) - vy (b2min a).
+
+Lemma filter_cons (q : Box2 ROps) (l : SegR) (ls : list SegR) : filterR q (l :: ls) = o2l (lineR q l) ++ filterR q ls.
+Proof. unfold line_filter. cbn [flat_map]. destruct (lineR q l); reflexivity. Qed.
+
+Lemma perm_swap_mid {A} (x y z : list A) : Permutation (x ++ y ++ z) (y ++ x ++ z).
+Proof. rewrite !app_assoc. apply Permutation_app_tail. apply Permutation_app_comm. Qed.
+Lemma perm_8 {A} (a a' b b' c c' d d' : list A) :
+  Permutation ((a ++ a') ++ (b ++ b') ++ (c ++ c') ++ (d ++ d')) ((a ++ b ++ c ++ d) ++ (a' ++ b' ++ c' ++ d')).
+Proof.
+  rewrite <- !app_assoc. apply Permutation_app_head.
+  eapply perm_trans; [apply perm_swap_mid|]. apply Permutation_app_head.
+  (* a' ++ b' ++ c ++ c' ++ d ++ d'  ~  c ++ d ++ a' ++ b' ++ c' ++ d' *)
+  eapply perm_trans; [apply Permutation_app_head; apply perm_swap_mid|].
+  eapply perm_trans; [apply perm_swap_mid|]. apply Permutation_app_head.
+  (* a' ++ b' ++ c' ++ d ++ d' ~ d ++ a' ++ b' ++ c' ++ d' *)
+  eapply perm_trans; [apply Permutation_app_head; apply Permutation_app_head; apply perm_swap_mid|].
+  eapply perm_trans; [apply Permutation_app_head; apply perm_swap_mid|].
+  apply perm_swap_mid.
+Qed.
+
+(* one level: every segment owned by the box is the chain of what the four quadrants return *)
+Lemma filter_split (a : Box2 ROps) (ls : list SegR) : good a -> Forall (owned a) ls ->
+  (exists cs, Forall2 is_chain ls cs /\
+     Permutation (filterR (quad0 a) ls ++ filterR (quad1 a) ls ++ filterR (quad2 a) ls ++ filterR (quad3 a) ls) (concat cs)) /\
+  Forall (owned (quad0 a)) (filterR (quad0 a) ls) /\ Forall (owned (quad1 a)) (filterR (quad1 a) ls) /\
+  Forall (owned (quad2 a)) (filterR (quad2 a) ls) /\ Forall (owned (quad3 a)) (filterR (quad3 a) ls).
+Proof.
+  intros Hg HF. induction HF as [|l ls Hl HF IH].
+  - split; [exists []; split; [constructor | apply Permutation_refl]|]. repeat split; constructor.
+  - destruct IH as ((cs & Hcs & Hp) & O0 & O1 & O2 & O3).
+    destruct (quad_split a l Hg Hl) as (ch & Hch & Hpl & Q0 & Q1 & Q2 & Q3).
+    rewrite !filter_cons. split.
+    + exists (ch :: cs). split; [constructor; assumption|]. cbn [concat].
+      eapply perm_trans; [apply perm_8|]. apply Permutation_app; assumption.
+    + refine (conj _ (conj _ (conj _ _))); apply Forall_app; split; try assumption.
+      * destruct (lineR (quad0 a) l) as [P|]; [constructor; [apply Q0; reflexivity | constructor] | constructor].
+      * destruct (lineR (quad1 a) l) as [P|]; [constructor; [apply Q1; reflexivity | constructor] | constructor].
+      * destruct (lineR (quad2 a) l) as [P|]; [constructor; [apply Q2; reflexivity | constructor] | constructor].
+      * destruct (lineR (quad3 a) l) as [P|]; [constructor; [apply Q3; reflexivity | constructor] | constructor].
+Qed.
+
+Lemma self_chains (ls : list SegR) : Forall2 is_chain ls (map (fun l => [l]) ls) /\ concat (map (fun l => [l]) ls) = ls.
+Proof.
+  induction ls as [|l ls [IH1 IH2]]; [split; [constructor | reflexivity]|].
+  split; [constructor; [apply is_chain_self | exact IH1] | cbn [map concat app]; rewrite IH2; reflexivity].
+Qed.
+
+(* quadrants of a good (square) box are good (square) and lie in it *)
+Lemma quads_good (a : Box2 ROps) : good a -> good (quad0 a) /\ good (quad1 a) /\ good (quad2 a) /\ good (quad3 a).
+Proof.
+  intros Hg. rewrite quad0_eq, quad1_eq, quad2_eq, quad3_eq. unfold good, ccx, ccy in *. cbn [b2min b2max vx vy]. lra.
+Qed.
+Lemma quads_square (a : Box2 ROps) : square a -> square (quad0 a) /\ square (quad1 a) /\ square (quad2 a) /\ square (quad3 a).
+Proof.
+  intros Hs. rewrite quad0_eq, quad1_eq, quad2_eq, quad3_eq. unfold square, ccx, ccy in *. cbn [b2min b2max vx vy]. lra.
+Qed.
+Lemma center_eq (a : Box2 ROps) : box2_center a = mkV2 (ccx a) (ccy a).
+Proof. unfold box2_center, box2_size, v2add, v2muls, v2sub, ccx, ccy. rewrite half_val. destruct a as [[? ?] [? ?]]. reflexivity. Qed.
+
+(* a segment in the closed square box lies in the square (centre, half side) minBoxDist2 measures *)
+Lemma contained_in_sq (a : Box2 ROps) (l : SegR) : good a -> square a -> contained a l ->
+  seg_all (in_sq (box2_center a) (@half ROps * (vx (b2max a) - vx (b2min a)))) l.
+Proof.
+  intros [Hg1 Hg2] Hs [[H1 H2] [H3 H4]]. rewrite center_eq, half_val. unfold square in Hs.
+  unfold seg_all, in_sq, ccx, ccy. cbn [vx vy]. unops. repeat split; apply Rabs_le; lra.
+Qed.
+
+Lemma contained_quad (a : Box2 ROps) (l : SegR) : good a ->
+  (contained (quad0 a) l \/ contained (quad1 a) l \/ contained (quad2 a) l \/ contained (quad3 a) l) -> contained a l.
+Proof.
+  intros [Hg1 Hg2]. rewrite quad0_eq, quad1_eq, quad2_eq, quad3_eq. unfold contained, ccx, ccy. cbn [b2min b2max vx vy].
+  intros [H|[H|[H|H]]]; destruct H as [[? ?] [? ?]]; repeat split; lra.
+Qed.
+
+Definition clipped_at (a : Box2 ROps) (ls : list SegR) (t : qt ROps SegR) : Prop :=
+  (exists chains, Forall2 is_chain ls chains /\ Permutation (pieces t) (concat chains)) /\
+  Forall (contained a) (pieces t) /\ ray_ok t /\ (square a -> box_ok t).
+
+Lemma leaf_clipped (a : Box2 ROps) (ls : list SegR) : good a -> Forall (owned a) ls ->
+  clipped_at a ls (QLeaf a (box2_center a) (@half ROps * (vx (b2max a) - vx (b2min a))) ls).
+Proof.
+  intros Hg HF. unfold clipped_at. cbn [pieces ray_ok box_ok].
+  assert (HC : Forall (contained a) ls) by (eapply Forall_impl; [|exact HF]; apply owned_contained).
+  split; [|split; [exact HC | split; [exact I|]]].
+  - destruct (self_chains ls) as [H1 H2]. exists (map (fun l => [l]) ls). split; [exact H1 | rewrite H2; apply Permutation_refl].
+  - intros Hs. split; [rewrite half_val; destruct Hg; unops; lra|].
+    eapply Forall_impl; [|exact HC]. intros l Hl. apply contained_in_sq; assumption.
+Qed.
+
+(* (7) FULL, all levels: qtBuild yields a clipped family for EVERY list of segments owned by the box *)
+Theorem qt_build_clipped : forall (fuel : nat) (a : Box2 ROps) (ls : list SegR), good a -> Forall (owned a) ls ->
+  clipped_at a ls (buildR fuel a ls).
+Proof.
+  induction fuel as [|f IH]; intros a ls Hg HF.
+  - destruct ls as [|l1 [|l2 ls']]; unfold qt_build; cbn [qt_build_with].
+    + unfold clipped_at. cbn [pieces ray_ok box_ok]. split; [exists []; split; [constructor | apply Permutation_refl]|]. repeat split; constructor.
+    + apply leaf_clipped; assumption.
+    + apply leaf_clipped; assumption.
+  - destruct ls as [|l1 [|l2 ls']]; unfold qt_build; cbn [qt_build_with].
+    + unfold clipped_at. cbn [pieces ray_ok box_ok]. split; [exists []; split; [constructor | apply Permutation_refl]|]. repeat split; constructor.
+    + apply leaf_clipped; assumption.
+    + set (ls := l1 :: l2 :: ls') in *.
+      destruct (filter_split a ls Hg HF) as ((cs & Hcs & Hpc) & O0 & O1 & O2 & O3).
+      destruct (quads_good a Hg) as (G0 & G1 & G2 & G3).
+      fold (buildR f (quad0 a) (filterR (quad0 a) ls)). fold (buildR f (quad1 a) (filterR (quad1 a) ls)).
+      fold (buildR f (quad2 a) (filterR (quad2 a) ls)). fold (buildR f (quad3 a) (filterR (quad3 a) ls)).
+      destruct (IH _ _ G0 O0) as ((CH0 & F0 & P0) & C0 & R0 & B0).
+      destruct (IH _ _ G1 O1) as ((CH1 & F1 & P1) & C1 & R1 & B1).
+      destruct (IH _ _ G2 O2) as ((CH2 & F2 & P2) & C2 & R2 & B2).
+      destruct (IH _ _ G3 O3) as ((CH3 & F3 & P3) & C3 & R3 & B3).
+      set (t0 := buildR f (quad0 a) (filterR (quad0 a) ls)) in *. set (t1 := buildR f (quad1 a) (filterR (quad1 a) ls)) in *.
+      set (t2 := buildR f (quad2 a) (filterR (quad2 a) ls)) in *. set (t3 := buildR f (quad3 a) (filterR (quad3 a) ls)) in *.
+      assert (HC : Forall (contained a) (pieces t0 ++ pieces t1 ++ pieces t2 ++ pieces t3)).
+      { repeat (apply Forall_app; split).
+        - eapply Forall_impl; [|exact C0]. intros l Hl. apply (contained_quad a l Hg). tauto.
+        - eapply Forall_impl; [|exact C1]. intros l Hl. apply (contained_quad a l Hg). tauto.
+        - eapply Forall_impl; [|exact C2]. intros l Hl. apply (contained_quad a l Hg). tauto.
+        - eapply Forall_impl; [|exact C3]. intros l Hl. apply (contained_quad a l Hg). tauto. }
+      unfold clipped_at. cbn [pieces]. split; [|split; [exact HC | split]].
+      * destruct (refine_chains ls _ cs (CH0 ++ CH1 ++ CH2 ++ CH3) Hcs Hpc) as (chains & HFc & Hp).
+        { repeat (apply Forall2_app; [assumption|]). assumption. }
+        exists chains. split; [exact HFc|]. eapply perm_trans; [|exact Hp]. rewrite !concat_app.
+        repeat (apply Permutation_app; [assumption|]). assumption.
+      * cbn [ray_ok]. rewrite center_eq. cbn [vx vy].
+        refine (conj _ (conj _ (conj _ (conj _ (conj R0 (conj R1 (conj R2 R3))))))).
+        -- eapply Forall_impl; [|exact C0]. intros l. rewrite quad0_eq. unfold contained, seg_all. cbn [b2min b2max vx vy]. tauto.
+        -- eapply Forall_impl; [|exact C1]. intros l. rewrite quad1_eq. unfold contained, seg_all. cbn [b2min b2max vx vy]. tauto.
+        -- eapply Forall_impl; [|exact C2]. intros l. rewrite quad2_eq. unfold contained, seg_all. cbn [b2min b2max vx vy]. tauto.
+        -- eapply Forall_impl; [|exact C3]. intros l. rewrite quad3_eq. unfold contained, seg_all. cbn [b2min b2max vx vy]. tauto.
+      * intros Hs. destruct (quads_square a Hs) as (S0 & S1 & S2 & S3). cbn [box_ok pieces].
+        split; [rewrite half_val; destruct Hg; unops; lra|].
+        split; [eapply Forall_impl; [|exact HC]; intros l Hl; apply contained_in_sq; assumption|].
+        auto.
+Qed.
+
+(* ------------------------------------------------------------ Mesh2D: the root box *)
+Definition inp (b : Box2 ROps) (q : V) : Prop :=
+  vx (b2min b) <= vx q <= vx (b2max b) /\ vy (b2min b) <= vy q <= vy (b2max b).
+
+Lemma include_grows (b : Box2 ROps) (v q : V) : inp b q -> inp (box2_include b v) q.
+Proof.
+  unfold inp, box2_include, v2min, v2max; cbn [b2min b2max vx vy]. unops. intros [[? ?] [? ?]].
+  pose proof (Rmin_l (vx (b2min b)) (vx v)). pose proof (Rmin_l (vy (b2min b)) (vy v)).
+  pose proof (Rmax_l (vx (b2max b)) (vx v)). pose proof (Rmax_l (vy (b2max b)) (vy v)). repeat split; lra.
+Qed.
+Lemma include_has (b : Box2 ROps) (v : V) : vx (b2min b) <= vx (b2max b) -> vy (b2min b) <= vy (b2max b) -> inp (box2_include b v) v.
+Proof.
+  unfold inp, box2_include, v2min, v2max; cbn [b2min b2max vx vy]. unops. intros.
+  pose proof (Rmin_r (vx (b2min b)) (vx v)). pose proof (Rmin_r (vy (b2min b)) (vy v)).
+  pose proof (Rmax_r (vx (b2max b)) (vx v)). pose proof (Rmax_r (vy (b2max b)) (vy v)). repeat split; lra.
+Qed.
+Lemma include_ordered (b : Box2 ROps) (v : V) : vx (b2min b) <= vx (b2max b) -> vy (b2min b) <= vy (b2max b) ->
+  vx (b2min (box2_include b v)) <= vx (b2max (box2_include b v)) /\ vy (b2min (box2_include b v)) <= vy (b2max (box2_include b v)).
+Proof.
+  unfold box2_include, v2min, v2max; cbn [b2min b2max vx vy]. unops. intros.
+  pose proof (Rmin_l (vx (b2min b)) (vx v)). pose proof (Rmin_l (vy (b2min b)) (vy v)).
+  pose proof (Rmax_l (vx (b2max b)) (vx v)). pose proof (Rmax_l (vy (b2max b)) (vy v)). split; lra.
+Qed.
+
+Definition bbstep (bb : Box2 ROps) (e : SegR) : Box2 ROps := box2_include (box2_include bb (fst e)) (snd e).
+Lemma fold_bb (ls : list SegR) : forall b : Box2 ROps,
+  vx (b2min b) <= vx (b2max b) -> vy (b2min b) <= vy (b2max b) ->
+  (forall q, inp b q -> inp (fold_left bbstep ls b) q) /\
+  Forall (fun l => inp (fold_left bbstep ls b) (fst l) /\ inp (fold_left bbstep ls b) (snd l)) ls.
+Proof.
+  induction ls as [|l ls IH]; intros b Hx Hy; cbn [fold_left]; [split; [auto | constructor]|].
+  destruct (include_ordered b (fst l) Hx Hy) as [Hx1 Hy1].
+  destruct (include_ordered (box2_include b (fst l)) (snd l) Hx1 Hy1) as [Hx2 Hy2].
+  destruct (IH (bbstep b l) Hx2 Hy2) as [G F]. split.
+  - intros q Hq. apply G. unfold bbstep. apply include_grows, include_grows. exact Hq.
+  - constructor; [|exact F]. split; apply G; unfold bbstep.
+    + apply include_grows. apply include_has; assumption.
+    + apply include_has; assumption.
+Qed.
+
+Lemma mesh_bb_contains (l0 : SegR) (ls : list SegR) :
+  let bb := @mesh_bb ROps (l0 :: ls) in
+  vx (b2min bb) <= vx (b2max bb) /\ vy (b2min bb) <= vy (b2max bb) /\
+  Forall (fun l => inp bb (fst l) /\ inp bb (snd l)) (l0 :: ls).
+Proof.
+  intros bb. assert (E : bb = fold_left bbstep (l0 :: ls) (line_bb l0)) by reflexivity.
+  set (b0 := @line_bb ROps l0) in *.
+  assert (H0 : vx (b2min b0) <= vx (b2max b0) /\ vy (b2min b0) <= vy (b2max b0)).
+  { unfold b0, line_bb. apply include_ordered; cbn [b2min b2max]; lra. }
+  destruct H0 as [Hx Hy]. destruct (fold_bb (l0 :: ls) b0 Hx Hy) as [G F]. rewrite <- E in F.
+  inversion F as [|? ? [[[H1 H2] [H3 H4]] _] _]; subst.
+  split; [lra | split; [lra | exact F]].
+Qed.
+
+Lemma cst_101_100 : @cst ROps 101 100 = 101 / 100.
+Proof. unfold cst. unops. cbn [ofZ ROps]. reflexivity. Qed.
+
+(* the root box of Mesh2D is a proper square and owns every segment (strictly inside), as soon as
+   the bounding box has a positive extent *)
+Lemma root_box_ok (l0 : SegR) (ls : list SegR) :
+  let bb := @mesh_bb ROps (l0 :: ls) in
+  0 < Rmax (vx (b2max bb) - vx (b2min bb)) (vy (b2max bb) - vy (b2min bb)) ->
+  good (qt_root_box (l0 :: ls)) /\ square (qt_root_box (l0 :: ls)) /\ Forall (owned (qt_root_box (l0 :: ls))) (l0 :: ls).
+Proof.
+  intros bb Hside. destruct (mesh_bb_contains l0 ls) as (Hx & Hy & HF). fold bb in Hx, Hy, HF.
+  unfold qt_root_box. fold bb. rewrite cst_101_100.
+  unfold box2_scale_about_center, newbox2, box2_center, box2_square, box2_size, v2maxcomp, v2add, v2sub, v2muls.
+  cbn [b2min b2max vx vy]. rewrite half_val. unops.
+  set (s := Rmax (vx (b2max bb) - vx (b2min bb)) (vy (b2max bb) - vy (b2min bb))) in *.
+  assert (Hs1 : vx (b2max bb) - vx (b2min bb) <= s) by apply Rmax_l.
+  assert (Hs2 : vy (b2max bb) - vy (b2min bb) <= s) by apply Rmax_r.
+  split; [unfold good; cbn [b2min b2max vx vy]; lra|].
+  split; [unfold square; cbn [b2min b2max vx vy]; lra|].
+  eapply Forall_impl; [|exact HF]. intros l [[[? ?] [? ?]] [[? ?] [? ?]]].
+  unfold owned, own1. cbn [b2min b2max vx vy]. repeat split; try lra; intros [? ?]; lra.
+Qed.
+
+(* a non-degenerate segment gives the bounding box a positive extent *)
+Lemma nondeg_side (l0 : SegR) (ls : list SegR) : nondeg l0 ->
+  let bb := @mesh_bb ROps (l0 :: ls) in
+  0 < Rmax (vx (b2max bb) - vx (b2min bb)) (vy (b2max bb) - vy (b2min bb)).
+Proof.
+  intros Hn bb. destruct (mesh_bb_contains l0 ls) as (Hx & Hy & HF). fold bb in Hx, Hy, HF.
+  inversion HF as [|? ? [[[? ?] [? ?]] [[? ?] [? ?]]] _]; subst.
+  destruct l0 as [[ax ay] [bx by_]]. unfold nondeg in Hn. cbn [fst snd vx vy] in *.
+  destruct (Req_dec ax bx) as [E|E].
+  - assert (ay <> by_) by (intros ->; subst; nra).
+    eapply Rlt_le_trans; [|apply Rmax_r]. destruct (Rlt_dec ay by_); lra.
+  - eapply Rlt_le_trans; [|apply Rmax_l]. destruct (Rlt_dec ax bx); lra.
+Qed.
+
+(* ------------------------------------------------------------ Mesh2D: fast = slow for every polygon *)
+Theorem mesh2d_well_clipped (n : nat) (ls : list SegR) : ls <> [] -> Forall nondeg ls ->
+  well_clipped (@mesh2d ROps idn n ls) ls.
+Proof.
+  intros Hne Hn. destruct ls as [|l0 ls]; [contradiction|].
+  inversion Hn as [|? ? Hn0 _]; subst.
+  destruct (root_box_ok l0 ls (nondeg_side l0 ls Hn0)) as (Hg & Hs & Ho).
+  destruct (qt_build_clipped n _ _ Hg Ho) as ((chains & HF & Hp) & _ & Hr & Hb).
+  exists chains. repeat split; try assumption. exact (Hb Hs).
+Qed.
+
+Theorem mesh2d_winding_clipped (n : nat) (l0 : SegR) (ls : list SegR) :
+  (let bb := @mesh_bb ROps (l0 :: ls) in 0 < Rmax (vx (b2max bb) - vx (b2min bb)) (vy (b2max bb) - vy (b2min bb))) ->
+  winding_clipped (@mesh2d ROps idn n (l0 :: ls)) (l0 :: ls).
+Proof.
+  intros Hside. destruct (root_box_ok l0 ls Hside) as (Hg & Hs & Ho).
+  destruct (qt_build_clipped n _ _ Hg Ho) as ((chains & HF & Hp) & _ & Hr & Hb).
+  exists chains. repeat split; assumption.
+Qed.
+
+Theorem mesh2d_fast_eq_slow (n : nat) (ls : list SegR) : ls <> [] -> Forall nondeg ls -> forall p,
+  eval_fast (qt_map new_line_info (@mesh2d ROps idn n ls)) p = eval_slow (convert_lines ls) p.
+Proof. intros Hne Hn. apply fast_eq_slow. apply mesh2d_well_clipped; assumption. Qed.
+
+Theorem mesh2d_winding_eq_slow (n : nat) (l0 : SegR) (ls : list SegR) :
+  (let bb := @mesh_bb ROps (l0 :: ls) in 0 < Rmax (vx (b2max bb) - vx (b2min bb)) (vy (b2max bb) - vy (b2min bb))) ->
+  forall p, qt_winding (qt_map new_line_info (@mesh2d ROps idn n (l0 :: ls))) p 0%Z = snd (slow_loop (convert_lines (l0 :: ls)) p).
+Proof. intros H. exact (fast_winding_eq_slow _ _ (mesh2d_winding_clipped n l0 ls H)). Qed.
